@@ -58,6 +58,7 @@ func init() {
 // structs). Scalars compare as terms, containers structurally; maps, channels and functions with
 // symbolic content are outside the model.
 func (fr *frame) deepEqual(a, b Value, depth int) *term.Term {
+	a, b = fr.m.forceFloat(a), fr.m.forceFloat(b)
 	if depth > 40 {
 		fr.m.unsupported("reflect.DeepEqual: nesting too deep")
 	}
